@@ -1,7 +1,351 @@
-/- C20: model not built yet (stub so that the per-property driver links). -/
+/-
+C20 — run-log side files.  Transcription of the side-file part of `WritingState`
+(writing_state.go: `Start`, `Stop`, `SetExperimentStateLabel`/`setExperimentStateLabel`) and of
+`AnySource.HandleExternalTriggers` / `HandleDataDrop` (data_source.go), driven by the request
+dispatch of `WriteControl` (`C06.classify`, shared with the C06 model) and by the
+`SourceControl.SetExperimentStateLabel` RPC (empty label refused before it is queued).
+
+* The three files of the current run are `ext`, `drop`, `st`: `none` = not created (the code
+  creates each lazily), `some content` = created, `content` = what follows the header line.
+  Buffered writers and the ticker-driven flushes do not change the logical content and are not
+  modelled; `Stop` flushes and closes, which moves the content to `done` (the closed files of the
+  finished runs, oldest first).  Time stamps of state lines are not modelled (a line is its label).
+* START is `valid` when the request selects a file type the source can write (the remaining
+  START checks - path, projectors - are C06's subject); with a valid START "writing already in
+  progress" is exactly `active`.
+-/
 import DastardV.Proto
+import DastardV.Model.C06
 namespace DastardV.C20
 
-def runLine (_ts : List String) : Verdict := .bad "C20: model not built yet"
+abbrev Label := List Nat
+
+def lSTART : Label := C06.sSTART
+def lSTOP : Label := C06.sSTOP
+
+/-- the content of the three side files of one finished run (`st = none`: no state file) -/
+structure RunFiles where
+  ext : List Int
+  drop : List (Int × Int)          -- (first frame after the drop, dropped frames)
+  st : Option (List Label)
+deriving Repr, DecidableEq
+
+structure S where
+  active : Bool                    -- WritingState.Active
+  extName : Bool                   -- ExternalTriggerFilename != ""
+  ext : Option (List Int)          -- externalTriggerFile / its buffered writer
+  drop : Option (List (Int × Int)) -- dataDropFile / its buffered writer
+  st : Option (List Label)         -- experimentStateFile
+  done : List RunFiles
+deriving Repr, DecidableEq
+
+def S.init : S := { active := false, extName := false, ext := none, drop := none, st := none, done := [] }
+
+inductive Op where
+  | block (ext : List Int) (dropped first : Int)
+  | req (r : List Nat) (valid : Bool)
+  | label (l : Label)
+deriving Repr, DecidableEq
+
+/-- `setExperimentStateLabel`: create the file on first use, append one line -/
+def setLabel (st : Option (List Label)) (l : Label) : Option (List Label) :=
+  match st with
+  | none => some [l]
+  | some ls => some (ls ++ [l])
+
+/-- `HandleExternalTriggers` -/
+def handleExt (s : S) (e : List Int) : S :=
+  let ext1 := if s.ext.isNone && !e.isEmpty && s.extName then some [] else s.ext
+  let ext2 := match ext1 with
+    | some c => if !e.isEmpty then some (c ++ e) else some c
+    | none => none
+  { s with ext := ext2 }
+
+/-- `HandleDataDrop` -/
+def handleDrop (s : S) (dropped first : Int) : S :=
+  if dropped > 0 then
+    if s.active then
+      let cur := match s.drop with | none => [] | some c => c
+      { s with drop := some (cur ++ [(first, dropped)]) }
+    else s
+  else s
+
+def contentOf {α} : Option (List α) → List α
+  | none => []
+  | some c => c
+
+/-- `WritingState.Stop` -/
+def stop (s : S) : S :=
+  let rf : RunFiles := { ext := contentOf s.ext, drop := contentOf s.drop,
+                         st := match s.st with | none => none | some ls => some (ls ++ [lSTOP]) }
+  { active := false, extName := false, ext := none, drop := none, st := none,
+    done := if s.active then s.done ++ [rf] else s.done }
+
+/-- a `WriteControl` request of kind `k` -/
+def stepReq (s : S) (valid : Bool) : C06.Kind → S × Bool
+  | .pause => (s, false)
+  | .unpause none => (s, false)
+  | .unpause (some l) =>
+    if s.active && !C06.multiLine l then ({ s with st := setLabel s.st l }, false) else (s, true)
+  | .unpauseBad => (s, true)
+  | .stop => (stop s, false)
+  | .start =>
+    if !valid || s.active then (s, true)
+    else ({ s with active := true, extName := true, st := setLabel s.st lSTART }, false)
+  | .invalid => (s, true)
+
+/-- one step; the Bool is "the request returned an error" -/
+def step (s : S) : Op → S × Bool
+  | .block e d f => (handleDrop (handleExt s e) d f, false)
+  | .req r valid => stepReq s valid (C06.classify r)
+  | .label l =>
+    if l.isEmpty then (s, true)                        -- refused by the RPC layer
+    else if s.active && !C06.multiLine l then ({ s with st := setLabel s.st l }, false)
+    else (s, true)
+
+def runOps : S → List Op → S
+  | s, [] => s
+  | s, o :: os => runOps (step s o).1 os
+
+/-- error flags of a run -/
+def runErrs : S → List Op → List Bool
+  | _, [] => []
+  | s, o :: os => (step s o).2 :: runErrs (step s o).1 os
+
+/-! ### The oracle: the property statement as a specification machine over (op, accepted?) -/
+
+/-- what the files of the current run must contain -/
+structure Cur where
+  ext : List Int
+  drop : List (Int × Int)
+  labels : List Label
+deriving Repr, DecidableEq
+
+inductive Bad where
+  | labelAcceptedInactive      -- a label was accepted while no run was active: its line went nowhere
+  | startAcceptedActive        -- a START was accepted while a run was active
+deriving Repr, DecidableEq
+
+structure Spec where
+  cur : Option Cur
+  done : List RunFiles
+deriving Repr, DecidableEq
+
+def Spec.init : Spec := { cur := none, done := [] }
+
+def specLabel (sp : Spec) (l : Label) (err : Bool) : Except Bad Spec :=
+  if err then .ok sp
+  else match sp.cur with
+    | none => .error .labelAcceptedInactive
+    | some c => .ok { sp with cur := some { c with labels := c.labels ++ [l] } }
+
+def specReq (sp : Spec) (err : Bool) : C06.Kind → Except Bad Spec
+  | .start =>
+    if err then .ok sp
+    else match sp.cur with
+      | none => .ok { sp with cur := some { ext := [], drop := [], labels := [lSTART] } }
+      | some _ => .error .startAcceptedActive
+  | .stop =>
+    match sp.cur with
+    | none => .ok sp
+    | some c => .ok { cur := none, done := sp.done ++ [{ ext := c.ext, drop := c.drop, st := some (c.labels ++ [lSTOP]) }] }
+  | .unpause (some l) => specLabel sp l err
+  | .unpause none => .ok sp
+  | .pause => .ok sp
+  | .unpauseBad => .ok sp
+  | .invalid => .ok sp
+
+def specStep (sp : Spec) (op : Op) (err : Bool) : Except Bad Spec :=
+  match op with
+  | .block e d f =>
+    match sp.cur with
+    | none => .ok sp
+    | some c => .ok { sp with cur := some { c with ext := c.ext ++ e,
+                                                   drop := if d > 0 then c.drop ++ [(f, d)] else c.drop } }
+  | .req r _ => specReq sp err (C06.classify r)
+  | .label l => specLabel sp l err
+
+def specRun : Spec → List Op → List Bool → Except Bad Spec
+  | sp, [], _ => .ok sp
+  | sp, _, [] => .ok sp
+  | sp, o :: os, e :: es =>
+    match specStep sp o e with
+    | .ok sp' => specRun sp' os es
+    | .error b => .error b
+
+/-- the oracle: the finished runs' files are exactly what the specification machine demands -/
+def chkC20 (ops : List Op) (errs : List Bool) (observed : List RunFiles) : Bool :=
+  match specRun Spec.init ops errs with
+  | .ok sp => sp.done == observed
+  | .error _ => false
+
+/-! ### Driver -/
+
+inductive Line where
+  | ok (l : Label)
+  | malformed
+deriving Repr, DecidableEq
+
+/-- one run's files as read back from disk -/
+structure RunObs where
+  extPresent : Bool
+  extHdr : Bool
+  ext : List Int
+  dropPresent : Bool
+  dropHdr : Bool
+  drop : List (Int × Int)
+  stPresent : Bool
+  stHdr : Bool
+  st : List Line
+deriving Repr, DecidableEq
+
+def RunObs.wellFormed (o : RunObs) : Bool :=
+  (!o.extPresent || o.extHdr) && (!o.dropPresent || o.dropHdr) && (!o.stPresent || o.stHdr) &&
+    o.st.all (fun l => l != .malformed)
+
+def RunObs.files (o : RunObs) : RunFiles :=
+  { ext := o.ext, drop := o.drop,
+    st := if o.stPresent then some (o.st.filterMap fun l => match l with | .ok x => some x | .malformed => none) else none }
+
+open P in
+def parseLine : P Line := do
+  let t ← tok
+  if t == "-" then pure (.ok [])
+  else match hexBytesAux t.toList with
+    | some bs => pure (.ok bs)          -- an even number of hex digits: the label of a well-formed line
+    | none => if t.startsWith "b" then pure .malformed else fail s!"bad state line token {t}"
+
+open P in
+def parseRun : P RunObs := do
+  kw "X"; let xp ← bool; let xh ← bool; let xs ← list int
+  kw "P"; let pp ← bool; let ph ← bool; let ps ← list (do let a ← int; let b ← int; pure (a, b))
+  kw "T"; let tp ← bool; let th ← bool; let ls ← list parseLine
+  pure { extPresent := xp, extHdr := xh, ext := xs, dropPresent := pp, dropHdr := ph, drop := ps,
+         stPresent := tp, stHdr := th, st := ls }
+
+inductive InOp where
+  | q (r : List Nat) (valid : Bool)
+  | l (lab : Label)
+  | b (first dropped : Int) (ext : List Int)
+
+open P in
+def parseInOp : P InOp := do
+  let t ← tok
+  match t with
+  | "Q" => do let r ← bytes; let v ← bool; pure (.q r v)
+  | "L" => do let l ← bytes; pure (.l l)
+  | "B" => do let f ← int; let d ← int; let e ← list int; pure (.b f d e)
+  | _ => fail s!"bad op {t}"
+
+def InOp.op : InOp → Op
+  | .q r v => .req r v
+  | .l lab => .label lab
+  | .b f d e => .block e d f
+
+structure ImplRes where
+  err : Bool
+  run : Option (RunObs × Nat)     -- files of the run that this op ended, open descriptors afterwards
+
+open P in
+def parseRes (op : InOp) : P ImplRes := do
+  let t ← tok
+  match op, t with
+  | .b .., "-" => pure { err := false, run := none }
+  | .q .., "E" | .l .., "E" => do
+    let e ← bool
+    let nx ← peek
+    if nx == some "RUN" then
+      let _ ← tok
+      let r ← parseRun
+      kw "FD"; let fd ← nat
+      pure { err := e, run := some (r, fd) }
+    else pure { err := e, run := none }
+  | _, _ => fail s!"bad result {t}"
+
+def parseAll : List InOp → P (List (InOp × ImplRes))
+  | [] => pure []
+  | o :: os => do
+    let r ← parseRes o
+    let rest ← parseAll os
+    pure ((o, r) :: rest)
+
+def isStopOp : Op → Bool
+  | .req r _ => C06.classify r == .stop
+  | _ => false
+
+/-- which ops end a run, according to the model -/
+def runEnds : S → List Op → List Bool
+  | _, [] => []
+  | s, o :: os => (isStopOp o && s.active) :: runEnds (step s o).1 os
+
+def runLine (ts : List String) : Verdict :=
+  let p : P (List (InOp × ImplRes) × List RunObs) := do
+    P.kw "nch"; let _ ← P.nat
+    P.kw "ops"; let ops ← P.list parseInOp
+    P.kw "OUT"
+    let t ← P.peek
+    if t == some "PANIC" || t == some "HANG" then
+      let a ← P.tok
+      let b ← (do let e ← P.atEnd; if e then pure "" else P.tok)
+      P.fail s!"CRASH {a} {b}"
+    let n ← P.nat
+    if n != ops.length then P.fail "op count mismatch"
+    let rs ← parseAll ops
+    P.kw "FINAL"
+    let fin ← P.list (do P.kw "RUN"; parseRun)
+    pure (rs, fin)
+  match P.run p ts with
+  | .error e =>
+    if e.startsWith "CRASH" then .viol s!"C20:crash the implementation crashed or hung: {e}" else .bad e
+  | .ok (rs, fin) =>
+    let ops := rs.map (·.1.op)
+    let errs := rs.map (·.2.err)
+    let runs := rs.filterMap (·.2.run)
+    let observed := runs.map (·.1.files)
+    -- 1. the oracle on the implementation's files
+    if (runs.any (fun r => !r.1.wellFormed) || fin.any (fun r => !r.wellFormed)) &&
+        (ops.zip errs).any (fun (o, e) => !e && match o with
+          | .label l => C06.multiLine l
+          | .req r _ => (match C06.classify r with | .unpause (some l) => C06.multiLine l | _ => false)
+          | _ => false) then
+      .viol "C20:label-line-break an accepted state label containing a line break put an untimestamped line into the experiment-state file"
+    else if runs.any (fun r => !r.1.wellFormed) || fin.any (fun r => !r.wellFormed) then
+      .viol "C20:malformed-file a side file has no header line, a truncated record, or a state line that is not '<time>, <label>'"
+    else if runs.any (fun r => r.2 != 0) then
+      .viol "C20:left-open a side file was still open after the STOP that ended its run"
+    else if fin.map (·.files) != observed then
+      .viol "C20:changed-after-stop the files of a finished run changed after its STOP"
+    else match specRun Spec.init ops errs with
+    | .error .labelAcceptedInactive => .viol "C20:label-accepted-inactive a state label was accepted while no run was active"
+    | .error .startAcceptedActive => .viol "C20:start-accepted-active a START was accepted while a run was active"
+    | .ok sp =>
+      if sp.done.length != observed.length then
+        .viol s!"C20:run-count {observed.length} runs were ended by a STOP, the history has {sp.done.length}"
+      else if sp.done.map (·.ext) != observed.map (·.ext) then
+        .viol "C20:ext-exact the external-trigger file is not exactly the counts delivered between START and STOP"
+      else if sp.done.map (·.drop) != observed.map (·.drop) then
+        .viol "C20:drop-lines the data-drop file is not one line per block that reported dropped frames"
+      else if sp.done.map (·.st) != observed.map (·.st) then
+        .viol "C20:state-file the experiment-state file is not START, one line per accepted label, STOP"
+      else
+        -- 2. the model must reproduce error flags, run boundaries and contents
+        let merrs := runErrs S.init ops
+        let m := runOps S.init ops
+        if merrs != errs then
+          .diff s!"error flags differ at op {(firstDiff merrs errs 0).getD 0}"
+        else if runEnds S.init ops != rs.map (·.2.run.isSome) then
+          .diff "the ops that ended a run differ"
+        else if m.done != observed then .diff "closed files differ from the model"
+        else
+            let tags :=
+              (if observed.any (fun r => !r.ext.isEmpty) then ["ext"] else []) ++
+              (if observed.any (fun r => !r.drop.isEmpty) then ["drop"] else []) ++
+              (if observed.any (fun r => match r.st with | some ls => ls.length > 2 | none => false) then ["labels"] else []) ++
+              (if observed.length ≥ 2 then ["restart"] else []) ++
+              (if observed.length ≥ 1 then ["run"] else ["no-run"]) ++
+              (if (ops.zip errs).any (fun (o, e) => e && match o with | .label _ => true | _ => false) then ["label-rejected"] else []) ++
+              (if (ops.zip errs).any (fun (o, e) => e && match o with | .req .. => true | _ => false) then ["request-rejected"] else []) ++
+              (if observed.any (fun r => r.ext.isEmpty && r.drop.isEmpty) then ["empty-run"] else [])
+            .ok tags
 
 end DastardV.C20
